@@ -285,6 +285,15 @@ class Calls:
         c = w.contracts.get(f'new::{clsname}')
         if c is not None:
             return w.apply_contract(it, c, {}, args, kwargs, node)
+        if clsname in w.classes and w.classes[clsname].get('methods') is not None:
+            # a class of the verified sources: a fresh object, then its __init__ (inlined when listed in INLINE)
+            defcls = w.defining_class(clsname, '__init__')
+            if defcls is None and not args and not kwargs:
+                return it.new_object(clsname)
+            if defcls is not None and w.may_inline(defcls, '__init__'):
+                obj = it.new_object(clsname)
+                self.call_method(it, obj, clsname, '__init__', args, kwargs, node)
+                return obj
         raise Unsupported(f'instantiation of {clsname} without constructor contract new::{clsname}')
 
     # =========================================================== attributes
@@ -299,6 +308,10 @@ class Calls:
                 return w.module_attr(it, obj.data + '.' + name, None)
             raise Unsupported(f'attribute {name} of {obj}')
         ty = obj.ty
+        if name == '__name__' and ty and ty.split('|')[0].startswith('callable:'):
+            # functions have a name (assumption: the callables stored in such fields are functions / methods)
+            NAME = w.uf('funcname!', [IntS, StrS])
+            return SV(V.StrV(NAME(V.oid(obj.t))), 'str')
         if ty in w.classes:
             return self.object_attr(it, obj, ty, name, node)
         obj = it.split_kind(obj)
@@ -309,6 +322,12 @@ class Calls:
             return PV('bound_builtin', (obj, name, node.value if node is not None else None))
         if name in ('name', 'value') and (tag == 'EnumV' or not it.feasible(z3.Not(V.is_EnumV(t)))):
             return SV(V.StrV(V.ename(t)) if name == 'name' else V.IntV(V.ecode(t)))
+        if ty is None and tag in (None, 'ObjV') and name not in ('name', 'value'):
+            # an object whose class is fixed by the path condition (after isinstance / a class invariant)
+            for cname in w.classes:
+                if w.field_type(cname, name) is not None and w.classes[cname].get('fields') and name in w.classes[cname]['fields'] \
+                        and not it.feasible(z3.Not(z3.And(V.is_ObjV(t), it.cids.sub(CLSOF(V.oid(t)), cname)))):
+                    return self.object_attr(it, SV(it.refine(t), cname, obj.src), cname, name, node)
         if ty is None and tag is None:
             # unknown kind: attribute error for plain data, enum member attributes for enum values
             if name in ('name', 'value'):
@@ -410,6 +429,9 @@ def _static(fty):
     return fty
 
 
+SINGLETON_IDS = (-101, -102, -103, -104)
+
+
 class Builtins:
     DATA_METHODS = {'items', 'keys', 'values', 'get', 'pop', 'setdefault', 'update', 'copy', 'append', 'extend',
                     'encode', 'decode', 'strip', 'startswith', 'endswith', 'split', 'join', 'replace', 'format',
@@ -431,7 +453,7 @@ class Builtins:
              'implies', 'num_eq', 'same_num', 'is_ascii', 'py_eq', 'is_obj', 'forall_items', 'is_seq', 'keys_of',
              'is_canonical_b64', 'b64_text', 'is_instance_of', 'class_of', 'is_whole', 'realnum', 'is_ok_float',
              'fresh_from', 'is_fresh', 'same_object', 'is_valid_b64', 'b64_bytes', 'mk_enum',
-             'seq_eq', 'is_wire', 'in_universe', 'on_grid', 'same_value', 'enum_owned', 'forall_int', 'forall_str', 'forall_obj', 'exists_int', 'has_dyn', 'is_prefix', 'line_removed', 'is_hashable', 'unchanged', 'last', 'nth', 'held', 'dict_same_except', 'time_time', 'time_sleep', 'as_float', 'enum_has_name', 'enum_code', 'enum_has_code', 'enum_name'}
+             'seq_eq', 'is_wire', 'in_universe', 'on_grid', 'same_value', 'enum_owned', 'forall_int', 'forall_str', 'forall_obj', 'exists_int', 'has_dyn', 'is_prefix', 'line_removed', 'is_hashable', 'is_callable', 'unchanged', 'last', 'nth', 'held', 'dict_same_except', 'time_time', 'time_sleep', 'as_float', 'enum_has_name', 'enum_code', 'enum_has_code', 'enum_name'}
 
     def call(self, it, name, args, kwargs, node):
         m = getattr(self, 'bi_' + name, None)
@@ -1077,7 +1099,14 @@ class Builtins:
             return SV(const(True))
         if not it.feasible(V.is_ObjV(x.t)):
             return SV(const(False))
-        raise Unsupported('callable() of untyped object')
+        # an object of unknown class: callability is an uninterpreted attribute of the object
+        CALLABLE = self.world.uf('callable!', [IntS, BoolS])
+        for sid in SINGLETON_IDS:
+            it.assume_axiom(z3.Not(CALLABLE(z3.IntVal(sid))))
+        return SV(V.BoolV(z3.And(V.is_ObjV(x.t), CALLABLE(V.oid(x.t)))))
+
+    def bi_is_callable(self, it, a, k, n):
+        return self.bi_callable(it, a, k, n)
 
     def bi_hasattr(self, it, a, k, n):
         return self.world.dynattr.hasattr(it, a[0], a[1])
